@@ -1,5 +1,5 @@
 (* C13 - stationary WT: undecimated, equals PyWavelets' closed form, shift-equivariant (one level, row pass). *)
-From PW Require Import Base.Ops Base.Sum Base.Sig Base.Tensor Model.Dwt Spec.Line Proofs.DwtNF Proofs.SwtProofs.
+From PW Require Import Base.Ops Base.Sum Base.Sig Base.Tensor Model.Dwt Spec.Line Proofs.DwtNF Proofs.DwtNFcol Proofs.SwtProofs Proofs.SwtProofs2D.
 
 Theorem C13_level_row :
   forall (R:Type) (Op:Ops R) (Rth:RingOk Op) (x:@ten R) (L:Z) (h0 h1:Z->R) (dil:Z),
@@ -20,3 +20,28 @@ Theorem C13_shift :
   swt_line Op L N d h (fun q => x ((q + s) mod N)) j = swt_line Op L N d h x (j + s).
 Proof. intros R Op _. exact (@swt_shift R Op). Qed.
 Print Assumptions C13_shift.
+
+(* column twin, one 2-D level, and every J of the module (the default mode periodization is mapped to periodic):
+   swt_level d x y: y has 4C channels at FULL input resolution, channel 4c + 2t + s = row band t / column band s of channel c, each
+   the swt2 closed form axis by axis with dilation d; swt_rel: level k uses dilation 2^(k-1) on the approximation band of level k-1 *)
+Theorem C13_level_col :
+  forall (R:Type) (Op:Ops R) (Rth:RingOk Op) (x:@ten R) (L:Z) (h0 h1:Z->R) (dil:Z),
+  2 <= L -> L mod 2 = 0 -> 1 <= dil -> 1 <= tW x -> 1 <= tH x -> 0 < tC x ->
+  is_ok (afb1d_atrous Op x L h0 h1 M_PERIODIC 2 dil)
+    (afb_col_spec x (tH x) (fun n oc i j => swt_line Op L (tH x) dil (hsel h0 h1 oc) (fun q => tf x n (oc/2) q j) i)).
+Proof. exact @atrous_periodic_col. Qed.
+Print Assumptions C13_level_col.
+Theorem C13_level_2d :
+  forall (R:Type) (Op:Ops R) (Rth:RingOk Op) (x:@ten R) Lr h0r h1r Lc h0c h1c dil,
+  2 <= Lr -> Lr mod 2 = 0 -> 2 <= Lc -> Lc mod 2 = 0 -> 1 <= dil -> 1 <= tW x -> 1 <= tH x -> 0 < tC x ->
+  is_ok (afb2d_atrous Op x Lr h0r h1r Lc h0c h1c M_PERIODIC dil) (swt_level Op Lr h0r h1r Lc h0c h1c dil x).
+Proof. exact @afb2d_atrous_swt2. Qed.
+Print Assumptions C13_level_2d.
+Theorem C13_multilevel :
+  forall (R:Type) (Op:Ops R) (Rth:RingOk Op) (J:nat) (x:@ten R) Lr h0r h1r Lc h0c h1c mode, mode = M_PER \/ mode = M_PERIODIC ->
+  2 <= Lr -> Lr mod 2 = 0 -> 2 <= Lc -> Lc mod 2 = 0 -> 1 <= tW x -> 1 <= tH x -> 0 < tC x ->
+  is_ok (SWTForward Op J x Lr h0r h1r Lc h0c h1c mode)
+    (fun ys => swt_rel Op (swt_level Op Lr h0r h1r Lc h0c h1c) J 1 x ys /\ length ys = J).
+Proof. exact @SWTForward_levels. Qed.
+Print Assumptions C13_multilevel.
+
